@@ -118,6 +118,26 @@ func c01Program(cs *caseSet, nVal int) {
 			continue
 		}
 		c01Big(cs, vg, codec, tt.T, sd)
+		// a nil slice in a REQUIRED list field is the empty list — also when the field's type is a
+		// typedef (chain) of a list: one value per such field
+		for idx, f := range sd.Fields {
+			if !f.Req || !f.T.IsList() || len(kept) == 0 || kept[0].IsNil() || len(kept[0].Items) != len(sd.Fields) {
+				continue
+			}
+			g := &gtext.G{K: kept[0].K, Items: append([]*gtext.G(nil), kept[0].Items...)}
+			g.Items[idx] = gtext.Nil()
+			refW, err := codec.ToWire(tt.T, g)
+			if err != nil {
+				continue // (a union: setting the field to nil leaves no member set)
+			}
+			c.rep.Hist("value", "nil slice in a required list field")
+			wantW := "ok " + refcodec.Canon(refW).Text()
+			gt := g.Text()
+			cs.add(opCase{Kind: "C01 ToWire", Impl: "towire " + tText + " " + gt, Model: "towire " + tText + " " + gt, Canon: "w", Want: wantW,
+				Why: "a nil slice in a required list field must serialise as the empty list (ToWire)", nontrivial: true})
+			cs.add(opCase{Kind: "C01 Encode", Impl: "encode " + tText + " " + gt, Model: "encode " + tText + " " + gt, Canon: fmt.Sprintf("hex:%d", code), Want: wantW,
+				Why: "a nil slice in a required list field must serialise as the empty list (Encode)", nontrivial: true})
+		}
 		// Default_<T>
 		want := "none"
 		if sd.HasDefaults() {
